@@ -22,6 +22,7 @@
 #include <sstream>
 #include <string>
 #include <thread>
+#include <unistd.h>
 #include <type_traits>
 #include <vector>
 #include "rkcommon/containers/TransactionalBuffer.h"
@@ -29,6 +30,35 @@
 
 using rkcommon::containers::TransactionalBuffer;
 using rkcommon::utility::TransactionalValue;
+
+// ---------------------------------------------------------------- inventory of executed members
+// Every call the harness makes to a member of the two classes is counted per (member, payload kind);
+// the counts are written to $C12_INV_DIR/inv.<pid> at exit (props/C12/check.py, evidence key `inventory`).
+enum InvMember { B_CTOR, B_PUSHC, B_PUSHM, B_CONSUME, B_SIZE, B_EMPTY, V_CTOR_DEF, V_CTOR_VAL, V_ASSIGN, V_UPDATE, V_GET, V_REF, V_REFWRITE, INV_N };
+static const char *const invNames[INV_N] = {"TransactionalBuffer::<ctor>()", "TransactionalBuffer::push_back(const T&)", "TransactionalBuffer::push_back(T&&)",
+  "TransactionalBuffer::consume()", "TransactionalBuffer::size()", "TransactionalBuffer::empty()", "TransactionalValue::<ctor>()",
+  "TransactionalValue::<ctor>(const OtherType&)", "TransactionalValue::operator=(const OtherType&)", "TransactionalValue::update()",
+  "TransactionalValue::get()", "TransactionalValue::ref()", "TransactionalValue::ref()=write"};
+static const char *const invKinds[4] = {"pod", "str", "vec", "het"};
+static std::atomic<long> g_inv[INV_N][4];
+struct InvTL { long c[INV_N][4]; InvTL() : c() {} ~InvTL() { for (int i = 0; i < INV_N; ++i) for (int k = 0; k < 4; ++k) if (c[i][k]) { g_inv[i][k] += c[i][k]; c[i][k] = 0; } } };
+static thread_local InvTL tl_inv;
+struct InvWriter {
+  ~InvWriter() {
+    const char *d = std::getenv("C12_INV_DIR");
+    if (!d) return;
+    for (int i = 0; i < INV_N; ++i) for (int k = 0; k < 4; ++k) if (tl_inv.c[i][k]) { g_inv[i][k] += tl_inv.c[i][k]; tl_inv.c[i][k] = 0; }
+    std::ofstream f(std::string(d) + "/inv." + std::to_string((long)getpid()));
+    for (int i = 0; i < INV_N; ++i) for (int k = 0; k < 4; ++k) if (g_inv[i][k].load()) f << invNames[i] << "@" << invKinds[k] << " " << g_inv[i][k].load() << "\n";
+  }
+};
+static InvWriter g_invWriter;
+template <typename T> struct KN { static const int id = 0; };
+template <> struct KN<std::string> { static const int id = 1; };
+template <> struct KN<std::vector<int>> { static const int id = 2; };
+static inline void inv_hit(int m, int k) { ++tl_inv.c[m][k]; }
+#define INVC(m) inv_hit(m, KN<T>::id)
+#define INVK(m, k) inv_hit(m, k)
 
 struct Pod { int p; long s; };
 static_assert(std::is_trivially_copyable<Pod>::value, "Pod must be trivially copyable");
@@ -78,7 +108,7 @@ static std::string seqB(const std::vector<std::string> &tok)
 {
   int nprod = std::atoi(tok[2].c_str());
   std::vector<long> next((size_t)nprod, 0);
-  TransactionalBuffer<T> buf;
+  TransactionalBuffer<T> buf; INVC(B_CTOR);
   const TransactionalBuffer<T> &cbuf = buf;
   std::ostringstream out;
   for (size_t i = 3; i < tok.size(); ++i) {
@@ -88,10 +118,10 @@ static std::string seqB(const std::vector<std::string> &tok)
       int p = std::atoi(t.c_str() + 1);
       if (p < 0 || p >= nprod) { out << "badop"; continue; }
       T v = EC<T>::enc(p, next[(size_t)p]++);
-      if (t[0] == 'p') buf.push_back(v); else buf.push_back(std::move(v));
+      if (t[0] == 'p') (INVC(B_PUSHC), buf.push_back(v)); else (INVC(B_PUSHM), buf.push_back(std::move(v)));
       out << "ok";
     } else if (t == "c") {
-      std::vector<T> b = buf.consume();
+      std::vector<T> b = (INVC(B_CONSUME), buf.consume());
       out << "[";
       for (size_t k = 0; k < b.size(); ++k) {
         int p = -1; long s = -1;
@@ -99,8 +129,8 @@ static std::string seqB(const std::vector<std::string> &tok)
         out << (k ? " " : "") << p << "." << s << (ok ? "" : "!CORRUPT");
       }
       out << "]";
-    } else if (t == "s") out << cbuf.size();
-    else if (t == "e") out << (cbuf.empty() ? "true" : "false");
+    } else if (t == "s") out << (INVC(B_SIZE), cbuf.size());
+    else if (t == "e") out << ((INVC(B_EMPTY), cbuf.empty()) ? "true" : "false");
     else out << "badop";
   }
   return out.str();
@@ -113,15 +143,16 @@ static std::string runV(TransactionalValue<T> &tv, const std::vector<std::string
   for (size_t i = 3; i < tok.size(); ++i) {
     const std::string &t = tok[i];
     if (i > 3) out << " ; ";
-    if (t[0] == 'a') { tv = VC<T>::enc(std::atol(t.c_str() + 1)); out << "ok"; }
+    if (t[0] == 'a') { (INVC(V_ASSIGN), tv = VC<T>::enc(std::atol(t.c_str() + 1))); out << "ok"; }
     else if (t[0] == 'A') {            // A<n>:<start>  n assignments start, start+1, ... in a row
       long n = std::atol(t.c_str() + 1); size_t c = t.find(':'); long st = c == std::string::npos ? 1 : std::atol(t.c_str() + c + 1);
-      for (long k = 0; k < n; ++k) tv = VC<T>::enc(st + k);
+      for (long k = 0; k < n; ++k) (INVC(V_ASSIGN), tv = VC<T>::enc(st + k));
       out << "ok";
     }
-    else if (t == "u") out << (tv.update() ? "true" : "false");
-    else if (t == "g") { long v = -1; bool ok = VC<T>::dec(tv.get(), v); out << v << (ok ? "" : "!CORRUPT"); }
-    else if (t == "r") { long v = -1; bool ok = VC<T>::dec(tv.ref(), v); out << v << (ok ? "" : "!CORRUPT"); }
+    else if (t[0] == 'w') { INVC(V_REFWRITE); (INVC(V_REF), tv.ref()) = VC<T>::enc(std::atol(t.c_str() + 1)); out << "ok"; }   // write through ref()
+    else if (t == "u") out << ((INVC(V_UPDATE), tv.update()) ? "true" : "false");
+    else if (t == "g") { long v = -1; bool ok = VC<T>::dec((INVC(V_GET), tv.get()), v); out << v << (ok ? "" : "!CORRUPT"); }
+    else if (t == "r") { long v = -1; bool ok = VC<T>::dec((INVC(V_REF), tv.ref()), v); out << v << (ok ? "" : "!CORRUPT"); }
     else out << "badop";
   }
   return out.str();
@@ -130,9 +161,71 @@ static std::string runV(TransactionalValue<T> &tv, const std::vector<std::string
 template <typename T>
 static std::string seqV(const std::vector<std::string> &tok)
 {
-  if (tok[2] == "-") { TransactionalValue<T> tv{}; return runV(tv, tok); }
-  TransactionalValue<T> tv(VC<T>::enc(std::atol(tok[2].c_str())));
+  if (tok[2] == "-") { TransactionalValue<T> tv{}; INVC(V_CTOR_DEF); return runV(tv, tok); }
+  TransactionalValue<T> tv(VC<T>::enc(std::atol(tok[2].c_str()))); INVC(V_CTOR_VAL);
   return runV(tv, tok);
+}
+
+// heterogeneous instantiation of the member templates: TransactionalValue<std::string> constructed and assigned from const char*
+static std::string seqVhet(const std::vector<std::string> &tok)
+{
+  typedef std::string T;
+  std::ostringstream out;
+  auto body = [&](TransactionalValue<T> &tv) {
+    for (size_t i = 3; i < tok.size(); ++i) {
+      const std::string &t = tok[i];
+      if (i > 3) out << " ; ";
+      if (t[0] == 'a') { std::string sv = VC<T>::enc(std::atol(t.c_str() + 1)); const char *p = sv.c_str(); INVK(V_ASSIGN, 3); tv = p; out << "ok"; }
+      else if (t[0] == 'A') {
+        long n = std::atol(t.c_str() + 1); size_t c = t.find(':'); long st = c == std::string::npos ? 1 : std::atol(t.c_str() + c + 1);
+        for (long k = 0; k < n; ++k) { std::string sv = VC<T>::enc(st + k); const char *p = sv.c_str(); INVK(V_ASSIGN, 3); tv = p; }
+        out << "ok";
+      }
+      else if (t[0] == 'w') { INVK(V_REFWRITE, 3); INVK(V_REF, 3); tv.ref() = VC<T>::enc(std::atol(t.c_str() + 1)).c_str(); out << "ok"; }
+      else if (t == "u") { INVK(V_UPDATE, 3); out << (tv.update() ? "true" : "false"); }
+      else if (t == "g") { INVK(V_GET, 3); long v = -1; bool ok = VC<T>::dec(tv.get(), v); out << v << (ok ? "" : "!CORRUPT"); }
+      else if (t == "r") { INVK(V_REF, 3); long v = -1; bool ok = VC<T>::dec(tv.ref(), v); out << v << (ok ? "" : "!CORRUPT"); }
+      else out << "badop";
+    }
+  };
+  if (tok[2] == "-") { TransactionalValue<T> tv{}; INVK(V_CTOR_DEF, 3); body(tv); }
+  else { std::string sv = VC<T>::enc(std::atol(tok[2].c_str())); const char *p = sv.c_str(); TransactionalValue<T> tv(p); INVK(V_CTOR_VAL, 3); body(tv); }
+  return out.str();
+}
+
+// compile-time facts about the special members and the signatures, per instantiation
+template <typename C> static void facts_common(const char *name)
+{
+  std::cout << "fact " << name
+            << " default_constructible=" << std::is_default_constructible<C>::value
+            << " copy_constructible=" << std::is_copy_constructible<C>::value
+            << " move_constructible=" << std::is_move_constructible<C>::value
+            << " copy_assignable_declared=" << std::is_copy_assignable<C>::value
+            << " move_assignable_declared=" << std::is_move_assignable<C>::value
+            << " destructible=" << std::is_destructible<C>::value;
+}
+template <typename T> static void facts_for(const char *kind)
+{
+  typedef TransactionalBuffer<T> B;
+  typedef TransactionalValue<T> V;
+  facts_common<B>((std::string("TransactionalBuffer<") + kind + ">").c_str());
+  std::cout << " consume_returns_vector_by_value=" << std::is_same<decltype(std::declval<B &>().consume()), std::vector<T>>::value
+            << " size_returns_size_t=" << std::is_same<decltype(std::declval<const B &>().size()), size_t>::value
+            << " empty_returns_bool=" << std::is_same<decltype(std::declval<const B &>().empty()), bool>::value << "\n";
+  facts_common<V>((std::string("TransactionalValue<") + kind + ">").c_str());
+  std::cout << " constructible_from_value=" << std::is_constructible<V, const T &>::value
+            << " assignable_from_value=" << std::is_assignable<V &, const T &>::value
+            << " get_returns_copy=" << std::is_same<decltype(std::declval<V &>().get()), T>::value
+            << " ref_returns_mutable_reference=" << std::is_same<decltype(std::declval<V &>().ref()), T &>::value
+            << " update_returns_bool=" << std::is_same<decltype(std::declval<V &>().update()), bool>::value << "\n";
+}
+static int mode_facts()
+{
+  facts_for<Pod>("pod-struct");
+  facts_for<int>("int");
+  facts_for<std::string>("std::string");
+  facts_for<std::vector<int>>("std::vector<int>");
+  return 0;
 }
 
 static int mode_seq()
@@ -146,7 +239,8 @@ static int mode_seq()
       else if (tok[1] == "str") o = seqB<std::string>(tok);
       else o = seqB<std::vector<int>>(tok);
     } else if (tok.size() >= 3 && tok[0] == "V") {
-      if (tok[1] == "pod") o = seqV<int>(tok);
+      if (tok[1] == "het") o = seqVhet(tok);
+      else if (tok[1] == "pod") o = seqV<int>(tok);
       else if (tok[1] == "str") o = seqV<std::string>(tok);
       else o = seqV<std::vector<int>>(tok);
     }
@@ -163,7 +257,7 @@ static int stressbuf(int nprod, long npush, int spinN, const char *tracePath)
 {
   struct Round { size_t before; bool wasEmpty; std::vector<std::pair<int, long>> els; };
   std::vector<Round> trace;
-  TransactionalBuffer<T> buf;
+  TransactionalBuffer<T> buf; INVC(B_CTOR);
   std::atomic<int> running(nprod);
   std::atomic<bool> go(false), stopSampler(false);
   const long total = (long)nprod * npush;
@@ -174,7 +268,7 @@ static int stressbuf(int nprod, long npush, int spinN, const char *tracePath)
       while (!go.load()) {}
       for (long s = 0; s < npush; ++s) {
         T v = EC<T>::enc(p, s);
-        if (s & 1) buf.push_back(v); else buf.push_back(std::move(v));
+        if (s & 1) (INVC(B_PUSHC), buf.push_back(v)); else (INVC(B_PUSHM), buf.push_back(std::move(v)));
         if (spinN) spin((int)((s * 7 + p) % (spinN + 1)));
       }
       running.fetch_sub(1);
@@ -185,8 +279,8 @@ static int stressbuf(int nprod, long npush, int spinN, const char *tracePath)
     const TransactionalBuffer<T> &cb = buf;
     while (!go.load()) {}
     while (!stopSampler.load()) {
-      size_t n = cb.size();
-      bool e = cb.empty();
+      size_t n = (INVC(B_SIZE), cb.size());
+      bool e = (INVC(B_EMPTY), cb.empty());
       ++samples; if (e) ++sawEmpty;
       if ((long)n > maxSeen) maxSeen = (long)n;
       if ((long)n > total && sampFail.empty()) sampFail = "size() returned " + std::to_string(n) + " > total pushes " + std::to_string(total);
@@ -199,9 +293,9 @@ static int stressbuf(int nprod, long npush, int spinN, const char *tracePath)
   bool last = false;
   while (true) {
     bool fin = running.load() == 0;   // read before consuming: after it, one more consume drains everything
-    size_t before = buf.size();
-    bool wasEmpty = buf.empty();
-    std::vector<T> b = buf.consume();
+    size_t before = (INVC(B_SIZE), buf.size());
+    bool wasEmpty = (INVC(B_EMPTY), buf.empty());
+    std::vector<T> b = (INVC(B_CONSUME), buf.consume());
     ++batches;
     if (b.size() < before && fails.size() < 5)
       fails.push_back("consume() returned " + std::to_string(b.size()) + " elements right after size() == " + std::to_string(before) + " (single consumer)");
@@ -238,7 +332,7 @@ static int stressbuf(int nprod, long npush, int spinN, const char *tracePath)
     if (next[(size_t)p] != npush && fails.size() < 8)
       fails.push_back("producer " + std::to_string(p) + ": " + std::to_string(next[(size_t)p]) + " of " + std::to_string(npush) + " elements consumed (lost)");
   if (got != total && fails.size() < 8) fails.push_back("consumed " + std::to_string(got) + " elements, pushed " + std::to_string(total));
-  if (!buf.empty() || buf.size() != 0) fails.push_back("buffer not empty after the final consume");
+  if (!(INVC(B_EMPTY), buf.empty()) || (INVC(B_SIZE), buf.size()) != 0) fails.push_back("buffer not empty after the final consume");
   if (!sampFail.empty()) fails.push_back(sampFail);
   if (tracePath) {
     std::ofstream tf(tracePath);
@@ -269,7 +363,7 @@ static int stressobs(int nprod, long bursts, long burstlen, const char *tracePat
 {
   struct Round { char tag; size_t before; bool wasEmpty; std::vector<std::pair<int, long>> els; };
   std::vector<Round> trace;
-  TransactionalBuffer<T> buf;
+  TransactionalBuffer<T> buf; INVC(B_CTOR);
   const TransactionalBuffer<T> &cbuf = buf;
   std::atomic<long> arrived(0), release(0);
   std::vector<std::thread> prods;
@@ -279,7 +373,7 @@ static int stressobs(int nprod, long bursts, long burstlen, const char *tracePat
       for (long b = 1; b <= bursts; ++b) {
         for (long k = 0; k < burstlen; ++k) {
           T v = EC<T>::enc(p, seq++);
-          if (k & 1) buf.push_back(v); else buf.push_back(std::move(v));
+          if (k & 1) (INVC(B_PUSHC), buf.push_back(v)); else (INVC(B_PUSHM), buf.push_back(std::move(v)));
         }
         arrived.fetch_add(1);
         while (release.load() < b) std::this_thread::yield();
@@ -306,15 +400,15 @@ static int stressobs(int nprod, long bursts, long burstlen, const char *tracePat
     const bool lazy = burstlen >= 1024 && (b & 1);      // slow consumer: the whole burst piles up
     while (arrived.load() < (long)nprod * b) {
       if (lazy) { std::this_thread::yield(); continue; }
-      std::vector<T> v = buf.consume();
+      std::vector<T> v = (INVC(B_CONSUME), buf.consume());
       if (v.empty()) { std::this_thread::yield(); continue; }   // nothing to record or check
       ++overlapped;
       account(v, 'b', 0, true);
     }
     // quiescent point: every producer is parked at the barrier
-    size_t n = cbuf.size();
-    bool e = cbuf.empty();
-    std::vector<T> v = buf.consume();
+    size_t n = (INVC(B_SIZE), cbuf.size());
+    bool e = (INVC(B_EMPTY), cbuf.empty());
+    std::vector<T> v = (INVC(B_CONSUME), buf.consume());
     if (!v.empty()) ++quietNonEmpty;
     account(v, 'Q', n, e);
     if (fails.size() < 5) {
@@ -325,8 +419,8 @@ static int stressobs(int nprod, long bursts, long burstlen, const char *tracePat
         fails.push_back("quiescent point " + std::to_string(b) + ": size() == " + std::to_string(n) + " but the buffer held " + std::to_string(v.size()) + " element(s), no push_back/consume in progress");
       else if (!e && v.empty())
         fails.push_back("quiescent point " + std::to_string(b) + ": empty() == false but the buffer was empty");
-      if (cbuf.size() != 0 || !cbuf.empty())
-        fails.push_back("quiescent point " + std::to_string(b) + ": right after consume() size() == " + std::to_string(cbuf.size()) + ", empty() == " + (cbuf.empty() ? "true" : "false"));
+      if ((INVC(B_SIZE), cbuf.size()) != 0 || !(INVC(B_EMPTY), cbuf.empty()))
+        fails.push_back("quiescent point " + std::to_string(b) + ": right after consume() size() == " + std::to_string((INVC(B_SIZE), cbuf.size())) + ", empty() == " + ((INVC(B_EMPTY), cbuf.empty()) ? "true" : "false"));
     }
     release.store(b);
   }
@@ -352,17 +446,17 @@ static int stressobs(int nprod, long bursts, long burstlen, const char *tracePat
 template <typename T>
 static int seqbig(int nprod, long N, const char *tracePath)
 {
-  TransactionalBuffer<T> buf;
+  TransactionalBuffer<T> buf; INVC(B_CTOR);
   const TransactionalBuffer<T> &cbuf = buf;
   std::vector<long> pushed((size_t)nprod, 0), next((size_t)nprod, 0);
   std::vector<std::string> fails;
   struct Round { size_t before; bool wasEmpty; std::vector<std::pair<int, long>> els; };
   std::vector<Round> trace;
   long got = 0;
-  auto push = [&](int p, bool mv) { T v = EC<T>::enc(p, pushed[(size_t)p]++); if (mv) buf.push_back(std::move(v)); else buf.push_back(v); };
+  auto push = [&](int p, bool mv) { T v = EC<T>::enc(p, pushed[(size_t)p]++); if (mv) (INVC(B_PUSHM), buf.push_back(std::move(v))); else (INVC(B_PUSHC), buf.push_back(v)); };
   auto round = [&](long expect) {
-    size_t n = cbuf.size(); bool e = cbuf.empty();
-    std::vector<T> b = buf.consume();
+    size_t n = (INVC(B_SIZE), cbuf.size()); bool e = (INVC(B_EMPTY), cbuf.empty());
+    std::vector<T> b = (INVC(B_CONSUME), buf.consume());
     trace.push_back(Round{n, e, {}}); trace.back().els.reserve(b.size());
     if ((long)n != expect && fails.size() < 6) fails.push_back("size() == " + std::to_string(n) + " with " + std::to_string(expect) + " elements pending");
     if (e != (expect == 0) && fails.size() < 6) fails.push_back(std::string("empty() == ") + (e ? "true" : "false") + " with " + std::to_string(expect) + " elements pending");
@@ -385,7 +479,7 @@ static int seqbig(int nprod, long N, const char *tracePath)
   for (int i = 0; i < 5; ++i) push(i % nprod, i & 1);
   long left = N + 5 - got;            // whatever a (wrong) first consume() left behind is still due, in order
   round(left);
-  for (int i = 0; i < 4 && !cbuf.empty(); ++i) round((long)cbuf.size());
+  for (int i = 0; i < 4 && !(INVC(B_EMPTY), cbuf.empty()); ++i) round((long)(INVC(B_SIZE), cbuf.size()));
   round(0);
   if (got != N + 5 && fails.size() < 8) fails.push_back("consumed " + std::to_string(got) + " elements, pushed " + std::to_string(N + 5));
   if (tracePath) {
@@ -412,12 +506,12 @@ static int stressvalburst(const char *tracePath)
   static const long gaps[] = {1, 255, 256, 257, 32767, 32768, 32769, 65535, 65536, 65537, 131071, 131072, 131073, 65536, 65536, 3};
   const int ng = (int)(sizeof(gaps) / sizeof(gaps[0]));
   long n = 0; for (int i = 0; i < ng; ++i) n += gaps[i];
-  TransactionalValue<T> tv(VC<T>::enc(0));
+  TransactionalValue<T> tv(VC<T>::enc(0)); INVC(V_CTOR_VAL);
   std::atomic<long> quiet(0), ack(0);
   std::thread prod([&] {
     long i = 0;
     for (int g = 0; g < ng; ++g) {
-      for (long k = 0; k < gaps[g]; ++k) tv = VC<T>::enc(++i);
+      for (long k = 0; k < gaps[g]; ++k) (INVC(V_ASSIGN), tv = VC<T>::enc(++i));
       quiet.store(i);
       while (ack.load() < i) std::this_thread::yield();
     }
@@ -428,8 +522,8 @@ static int stressvalburst(const char *tracePath)
   for (int g = 0; g < ng; ++g) {
     long q;
     while ((q = quiet.load()) <= acked) std::this_thread::yield();     // the consumer sleeps through the burst
-    bool u = tv.update();
-    long v = -1; bool ok = VC<T>::dec(tv.get(), v); if (!ok) v = -1;
+    bool u = (INVC(V_UPDATE), tv.update());
+    long v = -1; bool ok = VC<T>::dec((INVC(V_GET), tv.get()), v); if (!ok) v = -1;
     trace.push_back(std::make_pair(u ? 'T' : 'F', v));
     trace.push_back(std::make_pair('q', q));
     if (fails.size() < 5) {
@@ -437,8 +531,8 @@ static int stressvalburst(const char *tracePath)
                                   (u ? "true" : "false") + " and get() gave " + std::to_string(v) + ", last assigned " + std::to_string(q));
       else if (!u) fails.push_back("update() returned false although it installed the newer value " + std::to_string(q) + " (previous " + std::to_string(prev) + ")");
     }
-    bool u2 = tv.update();
-    long v2 = -1; VC<T>::dec(tv.get(), v2);
+    bool u2 = (INVC(V_UPDATE), tv.update());
+    long v2 = -1; VC<T>::dec((INVC(V_GET), tv.get()), v2);
     trace.push_back(std::make_pair(u2 ? 'T' : 'F', v2));
     if (u2 && fails.size() < 5) fails.push_back("second update() with nothing newly assigned returned true");
     prev = v2;
@@ -468,13 +562,13 @@ static int stressvalburst(const char *tracePath)
 template <typename T>
 static int stressval(long n, int spinN, const char *tracePath)
 {
-  TransactionalValue<T> tv(VC<T>::enc(0));
+  TransactionalValue<T> tv(VC<T>::enc(0)); INVC(V_CTOR_VAL);
   std::atomic<bool> go(false);
   std::atomic<long> quiet(0), ack(0);
   std::thread prod([&] {
     while (!go.load()) {}
     for (long i = 1; i <= n; ++i) {
-      tv = VC<T>::enc(i);
+      (INVC(V_ASSIGN), tv = VC<T>::enc(i));
       if (i == n || (i * 2654435761UL >> 7) % 16 == 0) { quiet.store(i); while (ack.load() < i) std::this_thread::yield(); }
       else if (spinN) spin((int)(i % (spinN + 1)));
     }
@@ -484,7 +578,7 @@ static int stressval(long n, int spinN, const char *tracePath)
   long prev = 0, polls = 0, trues = 0, gets = 0, quiets = 0, acked = 0;
   auto observe = [&](bool viaRef, int upd /* -1: no update call, 0 false, 1 true */) {
     long v = -1;
-    bool ok = viaRef ? VC<T>::dec(tv.ref(), v) : VC<T>::dec(tv.get(), v);
+    bool ok = viaRef ? VC<T>::dec((INVC(V_REF), tv.ref()), v) : VC<T>::dec((INVC(V_GET), tv.get()), v);
     ++gets;
     if (!ok) v = -1;
     if (tracePath) trace.push_back(std::make_pair(upd == 1 ? 'T' : upd == 0 ? 'F' : 'g', v));
@@ -498,7 +592,7 @@ static int stressval(long n, int spinN, const char *tracePath)
   go.store(true);
   while (true) {
     long q = quiet.load();            // q > acked: assignment q completed and the producer waits for the acknowledgement
-    bool u = tv.update();
+    bool u = (INVC(V_UPDATE), tv.update());
     ++polls; if (u) ++trues;
     observe((polls & 3) == 0, u ? 1 : 0);
     if ((polls & 7) == 0) observe(false, -1);
@@ -515,7 +609,7 @@ static int stressval(long n, int spinN, const char *tracePath)
   }
   prod.join();
   if (prev != n) fails.push_back("after the producer finished, update()+get() gave " + std::to_string(prev) + ", last assigned " + std::to_string(n));
-  if (tv.update()) fails.push_back("update() returned true with nothing newly assigned");
+  if ((INVC(V_UPDATE), tv.update())) fails.push_back("update() returned true with nothing newly assigned");
   else if (tracePath) trace.push_back(std::make_pair('F', prev));
   observe(false, -1);
   if (tracePath) {
@@ -538,6 +632,7 @@ int main(int argc, char **argv)
 {
   std::string mode = argc > 1 ? argv[1] : "seq";
   if (mode == "seq") return mode_seq();
+  if (mode == "facts") return mode_facts();
   std::string kind = argc > 2 ? argv[2] : "pod";
   if (mode == "stressbuf") {
     int nprod = argc > 3 ? std::atoi(argv[3]) : 2;
